@@ -83,7 +83,9 @@ def term_write(a, st):
         L = LINELEN(l)
         st.fact(L >= 0)
         g["term.bad"] = z3.Or(bad, c != 0, L > W)                # text is only ever written from column 0 and never past the margin
-        g["term.rows"] = z3.Store(rows, r, z3.If(L == W, Row.shows(l), Row.partial(l)))
+        # a full-width line, or a line written onto a blank row, leaves exactly that line on the row
+        old_row = z3.Select(rows, r)
+        g["term.rows"] = z3.Store(rows, r, z3.If(z3.Or(L == W, old_row == Row.blank), Row.shows(l), Row.partial(l)))
         g["term.c"] = L
         return
     if msg == CLEAR_EOL:
@@ -91,7 +93,7 @@ def term_write(a, st):
         # erasing from column 0 blanks the whole row; after a line written from column 0 it completes "shows(line)"
         new = z3.If(c == 0, Row.blank,
                     z3.If(z3.And(Row.is_partial(cur), c == LINELEN(Row.pline(cur))), Row.shows(Row.pline(cur)),
-                          z3.If(z3.Or(Row.is_shows(cur), Row.is_blank(cur)), cur, Row.junk)))
+                          z3.If(z3.Or(Row.is_blank(cur), z3.And(Row.is_shows(cur), c >= LINELEN(Row.line(cur)))), cur, Row.junk)))
         g["term.rows"] = z3.Store(rows, r, new)
         return
     if msg == CLEAR_BOL:
